@@ -583,7 +583,11 @@ def run(ctx, chk, tier):
     # every built-in sampler delivers at least one scored positive and negative (the band functions set thresholds at FNR/FPR on each replicate)
     c11.sample_wellformed(ctx, chk)
     c15.support_args_untouched(ctx, chk, "R16.7", with_extra=True)
-    c15.curve_owns_arrays(ctx, chk, "R16.10", ("score_analysis.roc_curve.roc_with_ci",))
+    c15.curve_owns_arrays(ctx, chk, "R16.10", tuple(BANDS))
+    # prerequisite: the bootstrapped statistic calls threshold_at_fpr(fpr) / threshold_at_fnr(fnr) on the very arrays that are returned in the curve;
+    # a setter that rescales its target array in place makes the returned rates disagree with the thresholds
+    from . import c10
+    c10.purity(ctx, chk, only=("Scores.threshold_at_fnr", "Scores.threshold_at_fpr", "Scores.fnr", "Scores.fpr"))
     for q in BANDS:
         fn = ctx.db.function(q)
         k, finds = lint(fn.node)
